@@ -93,6 +93,16 @@ def run(cx):
         txt = ' '.join(s.term for s in emits)
         cx.check('C05.S1', not re.search(r'@Some\.0(\.\d)?\.ttl', txt), f.path, 'emits', 'record-ttl-not-signed', 'the per-record TTL must not reach the signed data')
         push = cx.calls(f, r'Vec<T, A>::push$|Vec::push$')
+        flt = [c_ for c_ in cx.prog.find(r'^hickory_proto::dnssec::tbs::TBS::new::\{closure@filter#\d+\}$')]
+        if not push and len(flt) == 1:
+            # the same selection as `records.filter(|r| ..).collect()`: the filter closure is the membership predicate
+            cx.bool_cnf('C05.S1', flt[0], [[r'eq:DNSClass\((\^arg2,arg2\.dns_class|arg2\.dns_class,\^arg2)\)'],
+                                           [r'eq:RecordType\((Record::record_type\(arg2\),\^arg3\.type_covered|\^arg3\.type_covered,Record::record_type\(arg2\))\)'],
+                                           [r'eq:&?Name\((\^arg1,arg2\.name|arg2\.name,\^arg1)\)']], 'rrset-member=same class, covered type, same owner')
+            src = [s_ for s_ in cx.calls(f, r'Iterator::filter$') if re.search(r'^Iterator::filter\(arg4,closure:', s_.term)]
+            cx.check('C05.S1', len(src) == 1, f.path, 'calls', 'members-filtered-from-the-records-argument', str(len(src)))
+            push = None
+    if f and push is not None:
         cx.guard('C05.S1', push, {'same-class': r'^eq:DNSClass\(arg2,Iterator::next\(arg4\)@Some\.0\.dns_class\)$|^eq:DNSClass\(Iterator::next\(arg4\)@Some\.0\.dns_class,arg2\)$',
                                   'covered-type': r'^eq:RecordType\(Record::record_type\(Iterator::next\(arg4\)@Some\.0\),arg3\.type_covered\)$|^eq:RecordType\(arg3\.type_covered,Record::record_type\(',
                                   'same-owner': r'^eq:Name\(.*arg1.*\)$|^eq:&Name\(|^eq:Name\('}, expect=1, fn=f)
